@@ -4,6 +4,7 @@ import (
 	"bytes"
 	"fmt"
 	"strings"
+	"time"
 
 	"github.com/talostrading/sonic"
 
@@ -331,9 +332,10 @@ func init() {
 			"the popped slot is discarded before the next Pop, as documented",
 			"a rejection is only flagged as spurious when none of the three limits (slots, bytes, offsetter index range = maxBytes) is reached in the model",
 		},
-		Builds:   func(string) []string { return []string{"checkptr"} },
-		NumCases: func(tier, build string) int { return vf.Tiered(tier, 3000, 900000) },
-		Floor:    func(tier string) int { return vf.Tiered(tier, 500, 20000) },
-		Run:      runC20,
+		Builds:      func(string) []string { return []string{"checkptr"} },
+		NumCases:    func(tier, build string) int { return vf.Tiered(tier, 3000, 900000) },
+		Floor:       func(tier string) int { return vf.Tiered(tier, 500, 20000) },
+		CaseTimeout: 30 * time.Second,
+		Run:         runC20,
 	})
 }
